@@ -12,7 +12,7 @@ from lib.c15 import net as N
 from props import c05
 
 PID = "C15"
-EXTRA_PROPS = ("Num", "C05", "C05b")
+EXTRA_PROPS = ("Num", "C05", "C05b", "C05c")
 FORMATS = ["dbc", "dbc", "sym", "kcd", "json", "dbf", "arxml"]
 RULE = ("case 'read' = (format out of dbc, sym, kcd, json, dbf, arxml; an abstract network description inside the format's envelope: frames "
         "with identifier/format/length/senders/comment/cycle time, signals given by the payload bits they occupy, byte order, type, "
